@@ -227,7 +227,11 @@ Lemma text_emit_shape : forall p s offs n,
       (if (k1 <? k2)%nat then [TPrint (firstn (k2 - k1) (skipn k1 s))] else []) ++
       repeat (TPrint [32]) (Z.to_nat (offs + n - tw (firstn k2 s))) /\
     (k1 = length s \/ exists c, nth_error s k1 = Some c /\ 0 < cpw c) /\
-    (k2 = length s \/ exists c, nth_error s k2 = Some c /\ 0 < cpw c /\ tw (firstn k2 s) + cpw c > offs + n).
+    (k2 = length s \/ exists c, nth_error s k2 = Some c /\ 0 < cpw c /\ tw (firstn k2 s) + cpw c > offs + n) /\
+    (tw (firstn k1 s) = offs \/
+     (tw (firstn k1 s) = offs + 1 /\
+      exists k0 c, (k0 <= length s)%nat /\ tw (firstn k0 s) < offs /\ nth_error s k0 = Some c /\ 0 < cpw c /\
+                   tw (firstn k0 s) + cpw c > offs)).
 Proof.
   intros p s offs n Hv Ho Hn Hw. rewrite text_width_tw in Hw.
   assert (V := text_valid_valid s Hv).
@@ -238,7 +242,11 @@ Proof.
               then count_on s (mkPos (Z.of_nat k0) g0 (tw (firstn k0 s))) (-1) (offs + 1)
               else mkPos (Z.of_nat k0) g0 (tw (firstn k0 s))) = mkPos (Z.of_nat k1) g1 (tw (firstn k1 s)) /\
              offs <= tw (firstn k1 s) <= offs + 1 /\
-             (k1 = length s \/ exists c, nth_error s k1 = Some c /\ 0 < cpw c)).
+             (k1 = length s \/ exists c, nth_error s k1 = Some c /\ 0 < cpw c) /\
+             (tw (firstn k1 s) = offs \/
+              (tw (firstn k1 s) = offs + 1 /\
+               exists k0 c, (k0 <= length s)%nat /\ tw (firstn k0 s) < offs /\ nth_error s k0 = Some c /\ 0 < cpw c /\
+                            tw (firstn k0 s) + cpw c > offs))).
   { destruct (Z.ltb_spec (tw (firstn k0 s)) offs) as [Hlt|Hge].
     - destruct N0 as [N0|(c & Hc & Hc1 & Hc2)].
       + exfalso. subst k0. rewrite firstn_all_tw in Hlt. lia.
@@ -246,20 +254,22 @@ Proof.
         assert (Hk0' : (k0 < length s)%nat) by (apply nth_error_Some; congruence).
         destruct (count_on_stop s k0 g0 (offs + 1) V Hk0) as (k1 & g1 & Hk1 & E1 & B1 & N1).
         { pose proof (tw_nonneg (firstn k0 s) (valid_firstn k0 s V)). lia. }
-        exists k1, g1. split; [lia|]. split; [exact E1|]. split.
-        * split; [|lia].
-          destruct (Nat.eq_dec k1 k0) as [->|Hne].
+        assert (Lo : offs + 1 <= tw (firstn k1 s)).
+        { destruct (Nat.eq_dec k1 k0) as [->|Hne].
           -- exfalso. destruct N1 as [N1|(c' & Hc' & Hc1' & Hc2')]; [lia|]. rewrite Hc in Hc'. inversion Hc'; subst c'. lia.
-          -- assert (Hm := tw_firstn_mono s (S k0) k1 V ltac:(lia)). rewrite (tw_firstn_S s k0 c Hc) in Hm. lia.
+          -- assert (Hm := tw_firstn_mono s (S k0) k1 V ltac:(lia)). rewrite (tw_firstn_S s k0 c Hc) in Hm. lia. }
+        exists k1, g1. split; [lia|]. split; [exact E1|]. split; [lia|]. split.
         * destruct N1 as [N1|(c' & Hc' & Hc1' & _)]; [left; exact N1|right; eauto].
-    - exists k0, g0. split; [lia|]. split; [reflexivity|]. split; [lia|].
-      destruct N0 as [N0|(c' & Hc' & Hc1' & _)]; [left; exact N0|right; eauto]. }
-  destruct ST as (k1 & g1 & Hk1 & E1 & C1 & NB1). rewrite E1. cbn [sp_col sp_cp].
+        * right. split; [lia|]. exists k0, c. repeat split; try assumption; lia.
+    - exists k0, g0. split; [lia|]. split; [reflexivity|]. split; [lia|]. split.
+      + destruct N0 as [N0|(c' & Hc' & Hc1' & _)]; [left; exact N0|right; eauto].
+      + left. lia. }
+  destruct ST as (k1 & g1 & Hk1 & E1 & C1 & NB1 & LD). rewrite E1. cbn [sp_col sp_cp].
   destruct (count_on_stop s k1 g1 (offs + n) V Hk1) as (k2 & g2 & Hk2 & E2 & B2 & N2).
   { pose proof (tw_nonneg (firstn k1 s) (valid_firstn k1 s V)). lia. }
   rewrite E2. cbn [sp_col sp_cp].
   assert (Hm := tw_firstn_mono s k1 k2 V ltac:(lia)).
-  exists k1, k2. split; [lia|]. split; [exact C1|]. split; [lia|]. split; [|split; [exact NB1|exact N2]].
+  exists k1, k2. split; [lia|]. split; [exact C1|]. split; [lia|]. split; [|split; [exact NB1|split; [exact N2|exact LD]]].
   f_equal. f_equal. f_equal.
   destruct (Z.ltb_spec (Z.of_nat k1) (Z.of_nat k2)); destruct (Nat.ltb_spec k1 k2); try lia; [|reflexivity].
   unfold slice, firstz, skipz. cbn [sp_cp]. rewrite Nat2Z.id.
